@@ -10,7 +10,7 @@ Max2(a, b) == IF a > b THEN a ELSE b
 Track == TLCSet(1, Max2(TLCGet(1), l))
 \* A state that breaks a Layer A invariant is not an explanation: it is pruned (and does not
 \* count as progress), so an invariant can only fail the validation by leaving no explanation.
-TrackOk == MutexInv /\ Track
+TrackOk == MutexInv /\ Track /\ (l = N + 1 => PrintT(<<"ACCEPTED", N>>) /\ TLCSet("exit", TRUE))
 R == Rec[l]
 Is(k) == l <= N /\ R.k = k
 Next1 == l' = l + 1
@@ -104,7 +104,7 @@ Hung == (Is("hung") \/ Is("inconclusive")) /\ UNCHANGED lockVars /\ Next1
 WakeStale == Is("wake_stale") /\ UNCHANGED lockVars /\ Next1
 
 Next ==
-  \/ WakeStale \/ Hung \/ RelCall \/ New \/ Call \/ Ret \/ PollPending \/ Wake \/ Cancel \/ Rel \/ Quiesce \/ End \/ LinStep
+  \/ LinStep \/ WakeStale \/ Hung \/ RelCall \/ New \/ Call \/ Ret \/ PollPending \/ Wake \/ Cancel \/ Rel \/ Quiesce \/ End
 Spec == Init /\ [][Next]_vars
 
 Accepted ==
